@@ -433,6 +433,19 @@ def r4(ctx):
     r1_ = U(jd1.value.func.value)
     steps = [U(n.value).replace(" ", "").replace("\n", "") for n in nb if isinstance(n, ast.Assign) and U(n.targets[0]) == t1]
     want_steps = [f"{r1_}.drop_duplicates().sort_values(by='val').reset_index(drop=True)", f"{t1}.reset_index(drop=False)", f"{t1}.rename(columns={{'index':'new_index'}})"]
+    # the same three steps as one method chain, or split over differently named locals: read the table's final value through the
+    # straight-line single assignments of the branch
+    senv = {}
+    for n in nb:
+        if isinstance(n, ast.Assign) and len(n.targets) == 1 and isinstance(n.targets[0], ast.Name):
+            senv[n.targets[0].id] = inline(n.value, senv)
+        elif not isinstance(n, (ast.Expr, ast.Pass)):
+            senv = {}
+            break
+    chain = U(senv[t1]).replace(" ", "").replace("\n", "") if t1 in senv else ""
+    if chain == f"{r1_}.drop_duplicates().sort_values(by='val').reset_index(drop=True).reset_index(drop=False).rename(columns={{'index':'new_index'}})" \
+            and all(isinstance(n, ast.Assign) for n in nb):
+        steps = list(want_steps)
     joined = "|".join(steps)
     if steps != want_steps and "drop_duplicates" not in joined:
         raise AnalysisError(f"{f1.site()}: construction of the 1-d id table is not in a recognised idiom")
